@@ -17,6 +17,7 @@ import (
 	"time"
 
 	"github.com/cinar/indicator/v2/asset"
+	"github.com/cinar/indicator/v2/helper"
 	"github.com/cinar/indicator/v2/strategy"
 )
 
@@ -367,6 +368,17 @@ func startPipeline(r *obsRun, kind, name string, n []int, f []float64, env [][]f
 		for i, c := range cs {
 			r.drain(floatRecv(c), pc, i, len(cs))
 		}
+	case "NET":
+		// the network whose machine model is lean/IndicatorVerif/Model/NetMachines.lean (diamondNet):
+		// W = Operate(Operate(a0, b), a1) with a0, a1 = Duplicate(a)
+		if name != "diamond" || len(env) != 2 {
+			return "ERR unknown-net"
+		}
+		a := feed(r, env[0], capacity, pc, 0, 2)
+		b := feed(r, env[1], capacity, pc, 1, 2)
+		d := helper.Duplicate[float64](a, 2)
+		w := helper.Add(helper.Add(d[0], b), d[1])
+		r.drain(floatRecv(w), pc, 0, 1)
 	case "STRAT", "OUTCOME", "REPORT":
 		if strat == nil {
 			var e string
